@@ -59,7 +59,9 @@ func resolveStruct(rv reflect.Value, fieldName string) (any, bool) {
 		// of an exported one (name string; Name string `json:"name"`), as in the flattened form
 	}
 
-	// Try JSON tag (also of the promoted fields of embedded structs)
+	// Try JSON tag (also of the promoted fields of embedded structs; the struct's own field wins
+	// over a promoted one with the same tag, as in encoding/json and in the flattened form)
+	var found *reflect.StructField
 	for _, f := range reflect.VisibleFields(rt) {
 		tag := f.Tag.Get("json")
 		if tag == "" || !f.IsExported() {
@@ -71,13 +73,17 @@ func resolveStruct(rv reflect.Value, fieldName string) (any, bool) {
 		if tag == "-" {
 			continue // not a name: the field is excluded from tag addressing
 		}
-		if tagName == fieldName {
-			fv, err := rv.FieldByIndexErr(f.Index)
-			if err != nil || !fv.CanInterface() {
-				return nil, false
-			}
-			return fv.Interface(), true
+		if tagName == fieldName && (found == nil || len(f.Index) < len(found.Index)) {
+			f := f
+			found = &f
 		}
+	}
+	if found != nil {
+		fv, err := rv.FieldByIndexErr(found.Index)
+		if err != nil || !fv.CanInterface() {
+			return nil, false
+		}
+		return fv.Interface(), true
 	}
 
 	return nil, false
